@@ -289,18 +289,23 @@ TEXT = {'C11': {'technique': 'Lean 4 proof by mutual structural induction over t
                   'the expected tree (names, implicitness, annotations, operator structure, `group` flags, with exact token-span ranges): completeness of all '
                   '36 packrat functions on the printed sublanguage, ordered choice included (every earlier alternative is shown to fail); '
                   'C16_chain_left_nested / C16_printed_application_left_nested — the applications pass gives printed application chains their left nesting '
-                  'back.** Still pending (stated, listed in pending_statements, decided per term on the implementation): C16_read_back — the other two passes '
-                  'and name resolution return the term itself. **Proved end to end up to there: the text printed for any term tokenizes — no error, no panic, '
-                  'no two printed tokens fuse — to exactly the token kinds `printKinds` (C16_print_tokenizes: for every classifier that treats the keyword '
-                  'letters, space, digits and `)` `}` `;` as Rust std does, and every name table mapping the printed names to identifier lexemes), and that '
-                  'token sequence is a sentence of grammar.y (C16_printed_text_is_sentence, C16_print_derives) for every term without an implicit '
-                  'non-dependent function type (KF-print-implicit; proved not a sentence) and without a negative literal (never in a parsed or elaborated '
-                  'term; `f -1` and `f - 1` are proved to be the same tokens).** The printed text is the flattening of a lexeme list that mirrors the printer '
-                  'arm by arm (C16_print_items), digits round-trip (C16_decimal_digits). Proved: the bare/parenthesised partition equals the regenerated '
-                  'table; group parenthesises exactly the non-atomic formers; every operand position of every operator, application and definition goes '
-                  'through group, the bare positions are exactly the listed ones; printing depends on indices only through the dependent/non-dependent test; '
-                  'resolved cells are transparent; pure and store layers agree. Searched: every parser-produced term is printed, re-read by the real front end '
-                  'and compared structurally (1038 of 1053 position/child pairs occur, the rest are impossible). Known finding KF-print-implicit (`{A} -> B`).',
+                  "back.** **And the round trip is closed: C16_reassoc_printed (the three passes turn the parsed tree into the term's own surface tree), "
+                  'C16_resolve_printed, and C16_read_back — for every hole-free printable term that is well scoped in a scope of distinct non-placeholder '
+                  'names (group names pairwise distinct and fresh, no empty group, no group directly as the body of a group: shapes the printer prints like '
+                  'their flattening), print → tokenize → parse → re-associate → resolve returns the term itself, names of unused function-type parameters '
+                  'aside, with no diagnostic.** What remains outside the theorem: terms with unresolved holes (`_` reads back as a fresh hole), the two '
+                  'exclusions (KF-print-implicit, negative literals in values), and the tie of the five models to the Rust (correspondence). **Proved end to '
+                  'end up to there: the text printed for any term tokenizes — no error, no panic, no two printed tokens fuse — to exactly the token kinds '
+                  '`printKinds` (C16_print_tokenizes: for every classifier that treats the keyword letters, space, digits and `)` `}` `;` as Rust std does, '
+                  'and every name table mapping the printed names to identifier lexemes), and that token sequence is a sentence of grammar.y '
+                  '(C16_printed_text_is_sentence, C16_print_derives) for every term without an implicit non-dependent function type (KF-print-implicit; proved '
+                  'not a sentence) and without a negative literal (never in a parsed or elaborated term; `f -1` and `f - 1` are proved to be the same '
+                  'tokens).** The printed text is the flattening of a lexeme list that mirrors the printer arm by arm (C16_print_items), digits round-trip '
+                  '(C16_decimal_digits). Proved: the bare/parenthesised partition equals the regenerated table; group parenthesises exactly the non-atomic '
+                  'formers; every operand position of every operator, application and definition goes through group, the bare positions are exactly the listed '
+                  'ones; printing depends on indices only through the dependent/non-dependent test; resolved cells are transparent; pure and store layers '
+                  'agree. Searched: every parser-produced term is printed, re-read by the real front end and compared structurally (1038 of 1053 '
+                  'position/child pairs occur, the rest are impossible). Known finding KF-print-implicit (`{A} -> B`).',
          'note': 'Trusted: Lean kernel, standard axioms, extractor, harness/driver.'},
  'C19': {'technique': 'Lean proofs of the evaluation-level facts behind the rewrites (if-true, applied identity, unused definition, named subexpression) and '
                       'that names never influence shifting, opening, stepping or evaluation; metamorphic search on the implementation: seven rewrite kinds '
